@@ -139,10 +139,10 @@ class SuitKMS(SuitKMSBase):
         :return: The signature.
         :rtype: bytes
         """
-        if (self.keys_directory / key_name).with_suffix(".pem").is_file():
+        if (self.keys_directory / (key_name + ".pem")).is_file():
             key_file_name = key_name + ".pem"
             loader = load_pem_private_key
-        elif (self.keys_directory / key_name).with_suffix(".der").is_file():
+        elif (self.keys_directory / (key_name + ".der")).is_file():
             key_file_name = key_name + ".der"
             loader = load_der_private_key
         else:
